@@ -34,6 +34,12 @@ ParEmpty == {ParT1, Empty}
 LogSim == {LogT1, LogT2, LogT3, Empty}
 ParSim == {ParT1, ParT2, ParT3, Empty}
 
+\* thorough: three connections; the parameter side is kept to one (extended, read-only) table
+LogThor == {LogT1, LogT2}
+ParThor == {ParT2}
+
+ParOnlyEmpty == {Empty}
+
 Crcs2 == {"1111BEEF", "2222BEEF"}
 CrcSeq2 == <<"1111BEEF", "2222BEEF">>
 Crcs3 == {"1111BEEF", "2222BEEF", "00000000"}
